@@ -842,7 +842,8 @@ class IterFlow:
                 b.update(kw)
                 good = b.get("filter_") == ("fn", "filter_") and b.get("stop") == ("fn", "stop") and b.get("maxlevel") == ("max", 0)
                 start = b.get("node")
-                if good and isinstance(start, Node) and start.level == ("c", 1):
+                forest = isinstance(start, Seq) and start.level == ("c", 1) and self._init_accepts_list()
+                if good and ((isinstance(start, Node) and start.level == ("c", 1)) or forest):
                     self.ok("S4", f, e, "filter_, stop, maxlevel forwarded unchanged to %s over the start node" % name)
                 else:
                     self.problem("S4", f, e, "%s is not constructed over the start node with this iterator's filter_, stop and maxlevel "
@@ -905,6 +906,11 @@ class IterFlow:
                         return ("abortv", g, True)  # truthy <=> abort
                 return TOPV
         return TOPV
+
+    def _init_accepts_list(self):
+        from .rules.c05 import accepts_list_start
+        ini = self.funcs.get(("AbstractIter", "__init"))
+        return ini is not None and accepts_list_start(ini.node)
 
     def verify_get_children(self):
         """_get_children(children, stop) returns nodes of its argument only, each with stop(node) false"""
